@@ -187,6 +187,25 @@ func main() {
 			n, err := rules.GenMustWrite(c, prop)
 			fmt.Println(prop, n, "functions", err)
 		}
+	case "try":
+		// kyverif try <patch.diff> <prop>... : quick rules on the tree with the patch applied through an overlay
+		res := rules.TryPatch(os.Args[2], os.Args[3:])
+		rc := 0
+		for _, pr := range os.Args[3:] {
+			if len(res[pr]) > 0 {
+				rc = 1
+			}
+			fmt.Printf("== %s %s reports=%d\n", os.Args[2], pr, len(res[pr]))
+			for i, l := range res[pr] {
+				if i < 8 {
+					if len(l) > 420 {
+						l = l[:420]
+					}
+					fmt.Println(l)
+				}
+			}
+		}
+		os.Exit(rc)
 	case "check":
 		tier := "quick"
 		if len(os.Args) > 3 {
